@@ -78,8 +78,8 @@ CHECKS = {
  "C07": dict(
     level="model_checking", design="§5 C07",
     technique="Semantics.tla in table mode: a degree claim requires the node to be a polynomial expression and its value table to have total degree <= the claim (coordinate finite differences over F_P^K), checked by TLC in every execution; claims exported from the real analysis (hook H3) incl. CS0013 findings",
-    text="Every depth-1 expression over {signal a, signal b, parameter, local, literals} x all operators (and sampled depth-2 ones) is placed in the contexts direct `<--`, `<==`, through a local, accumulated in a loop, merged at a join, plus the statement skeletons; the tool's degree upper bounds (constant / linear / quadratic) on every node and every `unnecessary signal assignment` finding are checked against the value tables over all signal valuations: the node must be built as a polynomial expression and all (d+1)-fold coordinate differences of its table must vanish.",
-    note="The rank-1 shape A*B+C the compiler also requires is deliberately not demanded (the statement derives the compiler clause from the degree clause); K = 2 indeterminates, P = 5 (7)."),
+    text="Every depth-1 expression over {signal a, signal b, parameter, local, literals} x all operators (and sampled depth-2 ones) is placed in the contexts direct `<--`, `<==`, through a local, accumulated in a loop, merged at a join, as an operand whose range was merged at a join, written into a local array (in a branch, in sequence, in a loop before a read), with an output port of a sub-component as an indeterminate of its own, plus calls of a known function sq(x) = x * x (nested, on arguments of unknown degree) and the statement skeletons (with local arrays); the tool's degree upper bounds (constant / linear / quadratic) on every node and every `unnecessary signal assignment` finding are checked against the value tables over all signal valuations: the node must be built as a polynomial expression and all (d+1)-fold coordinate differences of its table must vanish.",
+    note="The rank-1 shape A*B+C the compiler also requires is deliberately not demanded (the statement derives the compiler clause from the degree clause); K = 2 indeterminates (3 in the component-port context), P = 5 (7); `not a polynomial expression` is judged wherever the expression has a value at all, the degree of the table where it is defined everywhere."),
  "C08": dict(
     level="model_checking", design="§5 C08",
     technique="TLA+ alphabet of assigning / constraining statement forms with Ref's expected findings (SignalAssign.tla) enumerated by TLC; every template rendered, desugared and analysed by the real code; bijection, anchoring and secondary locations compared",
@@ -89,7 +89,7 @@ CHECKS = {
     level="model_checking", design="§5 C09",
     technique="Self-composition in TLA+ (SemanticsEffects.tla): for every site flagged by CS0006/CS0007/CS0008 TLC runs the definition twice in lock step over F_3 from all inputs, replacing the value written at the site by any value, and compares the effects the statement lists",
     text="Every nesting chain of SemChains.tla (an accumulator updated under every nesting of if / if-else arms / while of depth <= 2 (3), used afterwards in a return, `<--` or `<==`) and every statement skeleton of SemGen.tla within the bound, instantiated with locals, parameters, input / output / intermediate signals, constraints, assertions, loops and branches, is analysed by the real code; each flagged assignment or parameter becomes a site. TLC explores, per site, all valuations of parameters and input signals x all replacement values at every execution of the site, and refutes the claim if a value assigned to an input/output signal, a side of a constraint mentioning one, an assertion outcome, the return value or a branch decision differs between the two runs.",
-    note="F_3; arrays / dimensions and component ports not generated yet; only flagged sites are judged."),
+    note="F_3; local arrays with run-dependent indices and dimensions are generated (write-cursor and dimension families of SemChains.tla), component ports are not; only flagged sites are judged."),
  "C20": dict(
     level="model_checking", design="§5 C20",
     technique="Hook H2 pass budgets: for every program every cut point of value and degree propagation (0..fixpoint each, and the diagonal) is run on the real code; the union of all claims made at any cut is validated by the same TLA+ executor as C06/C07, and the 13 passes must complete on every truncated CFG",
